@@ -2,13 +2,14 @@
 rational simplex model and the verified certificate checkers of Solvor/Lp."""
 from __future__ import annotations
 
+import time
 import warnings
 
 import core
 from core import Driver, rat
 from pool import err_kind, run_pool
-from props.lp_common import (RecCtx, enc_mat, enc_num, enc_point, enc_vec, gen_lp, lp_candidates, lp_strip, shrink,
-                              write_min)
+from props.lp_common import (CANDIDATE_SECONDS, LIMITS, RecCtx, enc_mat, enc_num, enc_point, enc_vec, gen_lp,
+                              lp_candidates, lp_strip, note_dropped, safe_run, shrink, write_min)
 
 AREAS = ["Lp"]
 LEVEL = "proof"
@@ -262,16 +263,26 @@ def judge(ctx, case, out, reply):
               "optimum": (str(core.unrat(opt)) if opt else None)})
 
 
-def run_cases(ctx, cases):
-    """returns the list of (function, class, case) that failed"""
-    outs = run_pool(impl, cases, timeout=60.0)
+def run_cases(ctx, cases, shrink_mode=False):
+    """implementation in the worker pool (per-case limit), model in driver processes with a timeout (a batch that
+    times out is retried in small pieces, then dropped with a note – never a verdict); returns the list of
+    (function, class, case) that failed"""
+    lim = LIMITS[getattr(ctx, "tier", "quick")]
+    outs = run_pool(impl, cases, timeout=CANDIDATE_SECONDS if shrink_mode else lim["pool"])
     reqs = [to_request(c, o) for c, o in zip(cases, outs)]
-    replies = Driver("Lp").run(reqs, chunks=16)
+    if shrink_mode:
+        replies, _ = safe_run(reqs, CANDIDATE_SECONDS, parts=[[i] for i in range(len(reqs))], retry=False)
+    else:
+        replies, dropped = safe_run(reqs, lim["drv"])
+        note_dropped(ctx, dropped, "C03")
     failed = []
     orig_fail = ctx.fail
-
     for c, o, rp in zip(cases, outs, replies):
+        if rp is None:
+            continue
         if rp and rp[0] == "error":
+            if shrink_mode:
+                continue
             raise core.Infra(f"model rejected request: {rp} for {c}")
 
         def rec(function, klass, what, replay, no_input=False, _c=c):
@@ -280,41 +291,35 @@ def run_cases(ctx, cases):
         ctx.fail = rec
         try:
             judge(ctx, c, o, rp)
+        except core.Infra:
+            if not shrink_mode:
+                raise
         finally:
             ctx.fail = orig_fail
     return failed
 
 
-def fails_batch(target):
+def fails_batch(target, tier):
     def run(cands):
-        out = []
-        recs = [RecCtx() for _ in cands]
-        outs = run_pool(impl, cands, timeout=60.0)
-        reqs = [to_request(c, o) for c, o in zip(cands, outs)]
         try:
-            replies = Driver("Lp").run(reqs, chunks=8)
-        except core.Infra:
-            return [False] * len(cands)
-        for c, o, rp, r in zip(cands, outs, replies, recs):
-            if rp and rp[0] == "error":
-                out.append(False); continue
-            try:
-                judge(r, c, o, rp)
-            except core.Infra:
-                out.append(False); continue
-            out.append(target in r.failed)
-        return out
+            failed = run_cases(RecCtx(tier), cands, shrink_mode=True)
+        except Exception:  # noqa: BLE001
+            failed = []
+        return [any(f == target[0] and k == target[1] and c is cand for f, k, c in failed) for cand in cands]
     return run
 
 
 def shrink_failures(ctx, failed, limit=2):
-    """minimise the first failing input of (at most `limit`) distinct (function, class) pairs"""
+    """minimise the first failing input of (at most `limit`) distinct (function, class) pairs within the run's
+    shrink budget"""
+    deadline = time.time() + LIMITS[ctx.tier]["shrink_total"]
     seen = set()
     for function, klass, case in failed:
-        if (function, klass) in seen or len(seen) >= limit:
+        if (function, klass) in seen or len(seen) >= limit or time.time() > deadline:
             continue
         seen.add((function, klass))
-        small, hist = shrink(case, lp_candidates, fails_batch((function, klass)))
+        small, hist = shrink(case, lp_candidates, fails_batch((function, klass), ctx.tier),
+                             max_seconds=LIMITS[ctx.tier]["shrink_total"] / 2, deadline=deadline)
         write_min(ctx, "C03", function, klass, small, hist)
 
 
@@ -326,9 +331,21 @@ def run(ctx, budget):
     cases += [gen_case(ctx.rng, big=(ctx.tier == "thorough" and i % 3 == 0)) for i in range(n)]
     # strips: a 1-2 % class of them makes a diverging interior-point run overflow; a few thousand cheap ones per run
     cases += [gen_strip_case(ctx.rng) for _ in range(3000 if budget == 1 else 2000 * budget)]
-    failed = run_cases(ctx, cases)
-    if failed and not getattr(ctx, "seed_shift", 0):
-        shrink_failures(ctx, failed)
+    k = LIMITS[ctx.tier]["slices"]
+    size = (len(cases) + k - 1) // k
+    ctx.rng.shuffle(cases)          # every slice sees every family (edge cases, general LPs, strips)
+    for t in range(k):
+        part = cases[t * size:(t + 1) * size]
+        if not part:
+            continue
+        failed = run_cases(ctx, part)
+        if failed:
+            if not getattr(ctx, "seed_shift", 0):
+                shrink_failures(ctx, failed)
+            if t + 1 < k:
+                ctx.notes.append(f"stopped after slice {t + 1}/{k}: a failure was confirmed, the remaining "
+                                 f"{len(cases) - (t + 1) * size} generated cases were not run")
+            break
 
 
 def replay(ctx, body):
